@@ -48,3 +48,5 @@ SPEC = dict(
     assumptions=["timer_mechanism_code (regenerated from ship/handshake.go) selects the modelled stop mechanism",
                  "arm and stop are atomic steps (they hold handshakeTimerMux in the repaired code)"],
 )
+
+SPEC["manifest"]["text"] += " A fifth of the random timer sequences start with two goroutines arming the connection's timer together (same duration); the conn stream has directed scripts for every class of hello waiting value."
